@@ -13,6 +13,20 @@ CLAIMED = {
         note="floats modelled as reals; np.linalg.inv replaced by the adjugate closed form; np.rint is a function symbol "
              "constrained by solver-proved lemma instances; general 3x3 symbolic cells and n>3 rows outside the bound.",
         ref="DESIGN.md C02"),
+    "C12": dict(
+        text="Bounded symbolic model checking of PairInteractions: for all real r, epsilon, sigma, r_c > 0 (and A, symbolic or "
+             "tabulated exponents) the returned s', s'(r_c), s'' are decided equal to the term-differentiated documented "
+             "potential; both shift settings; method calls and the caller() selector.",
+        note="floats modelled as reals; symbolic exponents through one positive power symbol per (base, exponent mod 1); "
+             "harmonic/Hertz restricted to 0 < r < sigma; concrete replays use 40-digit numerical differentiation.",
+        ref="DESIGN.md C12"),
+    "C08": dict(
+        text="Bounded symbolic model checking of the closed-form table: each of the 120 entries (l=1..10) is decided equal to the "
+             "Condon-Shortley recurrence identically in both angles (unit-circle parametrisation), in order m=-l..l, plus "
+             "Unsold sum, conjugation symmetry, the dispatcher l=1..12 and the delegated branch's call contract.",
+        note="floats modelled as reals; pi and sqrt(1/pi) are constrained symbols; scipy's compiled routine is replaced by the "
+             "reference for its documented signature in the symbolic run and called for real in concrete replays.",
+        ref="DESIGN.md C08"),
 }
 
 NOT_APPLICABLE = {
